@@ -45,6 +45,15 @@ const BOUNDARY_LINES: &[&str] = &[
     "GOSUB 99999999999999999999",
     "PRINT 1e308*10, -1e308*10, 0/1, 2^1024, (-8)^(1/3)",
     "FOR I = 1 TO 1e308 STEP 1e308",
+    // not-a-number and infinities made at run time (numerals are always finite) in every position of a FOR
+    "FOR I = 1 TO (0-1)^.5 : PRINT I : NEXT I : PRINT \"DONE\"",
+    "FOR J = 9^999 TO 1 STEP 0-9^999 : NEXT J : PRINT J",
+    "N = (0-1)^.5 : FOR I = N TO 3 : NEXT I : PRINT I",
+    "FOR I = 1 TO 3 STEP (0-1)^.5 : NEXT I : PRINT I",
+    "FOR I = 9^999 TO 9^999 : NEXT I : PRINT I",
+    "FOR I = 1 TO 9^999 STEP 9^999 : NEXT I : PRINT I",
+    "FOR I = 0-9^999 TO 9^999 STEP 9^999 : NEXT I : PRINT I",
+    "DIM A((0-1)^.5)", "A(9^999) = 1", "PRINT A((0-1)^.5)", "GOTO (0-1)^.5", "X = INT((0-1)^.5) : PRINT X; ABS(0-9^999); RND(9^999); RND((0-1)^.5)",
     "X = 1 : NEXT X",
     "INPUT X",
     "INPUT",
@@ -439,6 +448,23 @@ pub fn c01_cases(rng: &mut Rng, tier: &str) -> (Vec<Case>, bool) {
         w.op("take");
         cases.push(case_from(w, vec!["err-then-idle".into(), "snap-caps".into()], "boundary-line".into(), true, b.to_string()));
     }
+    // replies and DATA items may spell what no numeral can: nan, inf, -inf, 1e999 - then used as a loop bound, a step, a
+    // subscript, a jump target
+    for reply in ["nan", "inf", "-inf", "1e999", "NaN", "-nan", "infinity"] {
+        for prog in [&["10 INPUT N", "20 FOR I = 1 TO N", "30 PRINT I", "40 NEXT I", "50 PRINT \"DONE\""][..], &["10 INPUT N : FOR I = N TO 2 STEP N : NEXT I : PRINT I"][..], &["10 INPUT N : DIM A(N)"][..],
+            &["10 INPUT N : PRINT A(N)"][..], &["10 INPUT N : GOTO N"][..], &["10 READ N : FOR I = 1 TO 3 STEP N : NEXT I : PRINT I", "20 DATA {R}"][..], &["10 INPUT N : PRINT INT(N); ABS(N); RND(N); N = N; N < N; NOT N"][..]] {
+            let mut w = Walk::new(false, false);
+            for l in prog.iter() {
+                w.start(&l.replace("{R}", reply));
+            }
+            w.start("RUN");
+            let mut nr = 0;
+            w.drive(&[reply.to_string(), "1".to_string()], &mut nr, 40, true);
+            w.start("PRINT 7");
+            w.op("take");
+            cases.push(case_from(w, vec!["err-then-idle".into(), "snap-caps".into()], "non-finite-reply".into(), true, format!("{} answered {}", prog.join(" | "), reply)));
+        }
+    }
     (cases, false)
 }
 
@@ -542,6 +568,39 @@ pub fn c16_cases(rng: &mut Rng, tier: &str) -> (Vec<Case>, bool) {
             cases.push(case_from(w, vec!["snap-caps".into(), "err-then-idle".into()], "loops-at-the-prompt".into(), true, format!("{} x{}", seq.join(" | "), reps)));
         }
     }
+    // the same at a BREAKPOINT prompt (the stopped program's loops are kept there): a FOR typed for a variable whose loop the
+    // program - or an earlier prompt line - has open replaces that loop, however often it is typed
+    let stopped: &[&[&str]] = &[
+        &["10 FOR I = 1 TO 3", "20 STOP", "30 NEXT I"],
+        &["10 FOR I = 1 TO 3 : FOR K = 1 TO 2", "20 STOP", "30 NEXT K : NEXT I"],
+        &["10 GOSUB 100", "20 END", "100 FOR K = 1 TO 9", "110 STOP", "120 NEXT K : RETURN"],
+    ];
+    for prog in stopped {
+        for typed in [&["FOR I = 1 TO 5"][..], &["FOR K = 1 TO 5"][..], &["FOR I = 1 TO 5", "FOR K = 2 TO 3", "PRINT I"][..], &["FOR K = 1 TO 2", "X = 1"][..]] {
+            for reps in [1usize, 2, 34] {
+                let mut w = Walk::new(false, false);
+                for l in prog.iter() {
+                    w.start(l);
+                }
+                w.start("RUN");
+                let mut nr = 0;
+                w.drive(&[], &mut nr, 30, false);
+                w.op("snap");
+                for _ in 0..reps {
+                    for t in typed.iter() {
+                        w.start(t);
+                        let mut nr = 0;
+                        w.drive(&[], &mut nr, 10, false);
+                        w.op("snap");
+                    }
+                }
+                w.start("CONT");
+                let mut nr = 0;
+                w.drive(&[], &mut nr, 30, true);
+                cases.push(case_from(w, vec!["snap-caps".into(), "err-then-idle".into(), "no-call-fails OutOfMemory".into()], "loops-at-a-breakpoint".into(), true, format!("{} || {} x{}", prog.join(" | "), typed.join(" | "), reps)));
+            }
+        }
+    }
     // stopped exactly at / just below the cap, then one more frame from the PROMPT (the suspended program's frames are kept
     // at a breakpoint): GOSUB and FN calls typed in direct mode meet the same cap
     for depth in [30usize, 31, 32] {
@@ -639,7 +698,40 @@ pub fn c10_cases(rng: &mut Rng, tier: &str) -> (Vec<Case>, bool) {
             if w.poisoned() {
                 break;
             }
-            match rng.below(10) {
+            match rng.below(11) {
+                10 => {
+                    // an INPUT (one target or - not part of this dialect - a list of targets) typed at the prompt or run from
+                    // a scratch line, answered with too little, too much or the wrong kind, and abandoned with a break
+                    let stmt = rng.pick(&["INPUT A, B$", "INPUT A", "INPUT A$, B, C", "INPUT P(1), Q", "INPUT A$"]);
+                    if rng.chance(1, 2) {
+                        w.start(stmt);
+                    } else {
+                        w.start(&format!("65000 {}", stmt));
+                        w.start("GOTO 65000");
+                    }
+                    for _ in 0..rng.range(1, 4) {
+                        match w.state().as_str() {
+                            "Running" => {
+                                w.op("cont");
+                            }
+                            "AwaitingInput" => {
+                                if rng.chance(1, 4) {
+                                    break;
+                                }
+                                let r = rng.pick(&["1", "x", "1, 2", "", "\"a\", 1"]).to_string();
+                                w.reply(&r);
+                            }
+                            _ => break,
+                        }
+                    }
+                    let st = w.state();
+                    if st == "Running" || st == "AwaitingInput" {
+                        w.op("break");
+                    }
+                    // the scratch line is removed again so that both interpreters hold the same program
+                    w.start("65000");
+                    kinds.push("abandoned-input");
+                }
                 9 => {
                     // a failure caused by the nesting cap (49+ levels), possibly several
                     for _ in 0..rng.range(1, 3) {
@@ -798,6 +890,7 @@ pub fn c11_cases(rng: &mut Rng, tier: &str) -> (Vec<Case>, bool) {
             p.lines.retain(|l| !l.1.contains("DATA"));
         }
         p.lines.insert(2, (3, "READ D1 : ZZ = 42 : Z$ = \"kept\" : ZA(3) = 7".to_string()));
+        p.lines.push((6, "REM marker".to_string()));
         p.lines.insert(3, (4, "FOR L9 = 1 TO 3 : GOSUB 950".to_string()));
         p.lines.push((940, "END".to_string()));
         p.lines.push((950, "W9 = W9 + 1".to_string()));
@@ -865,8 +958,16 @@ pub fn c11_cases(rng: &mut Rng, tier: &str) -> (Vec<Case>, bool) {
         w.op("take");
         w.op("snap");
         // the edit
-        let edit_kind = if no_data && rng.chance(2, 3) { 3 } else { rng.below(5) };
+        let edit_kind = if no_data && rng.chance(2, 3) { 3 } else { rng.below(8) };
         let (edit, ok) = match edit_kind {
+            // edits that change nothing a program could observe are edits all the same: a remark replaced by a remark, a
+            // line entered again with the very same text
+            5 => (format!("6 REM {}", rng.pick(&["marker", "other", "", " marker"])), true),
+            6 => {
+                let l = p.lines[rng.below(p.lines.len())].clone();
+                (format!("{} {}", l.0, l.1), true)
+            }
+            7 => (rng.pick(&["6 REM", "6 rem marker", "6  REM marker", "940 END", "960 RETURN"]).to_string(), true),
             0 => ("5 REM added".to_string(), true),
             1 => (format!("{} PRINT \"replaced\"", p.lines[rng.below(p.lines.len())].0), true),
             2 => (format!("{}", p.lines[rng.below(p.lines.len())].0), true), // delete
@@ -963,7 +1064,7 @@ pub fn c11_cases(rng: &mut Rng, tier: &str) -> (Vec<Case>, bool) {
         }
         let _ = kept_idx;
         w.op("snap");
-        let tag = format!("{}:{}:{}", how, ["add", "replace", "delete", "data", "failed"][edit_kind], probe_text.split(' ').next().unwrap());
+        let tag = format!("{}:{}:{}", how, ["add", "replace", "delete", "data", "failed", "remark-for-remark", "same-text", "same-meaning"][edit_kind], probe_text.split(' ').next().unwrap());
         cases.push(case_from(w, checks, tag, true, format!("{} || edit {:?} || probe {}", p.text().replace('\n', " | "), edit, probe_text)));
     }
     // a program that ended on its own (END / last line / an error), leaving nothing behind but what DEF, DIM and
@@ -1121,6 +1222,7 @@ pub fn c09_cases(rng: &mut Rng, tier: &str) -> (Vec<Case>, bool) {
                         w.op("break");
                         w.op("take");
                         w.op("reads");
+                        w.op("snap");
                         w.start("CONT");
                     } else {
                         w.op("snap");
@@ -1138,6 +1240,7 @@ pub fn c09_cases(rng: &mut Rng, tier: &str) -> (Vec<Case>, bool) {
                 } => {
                     // stopped at a STOP: resume
                     w.op("reads");
+                    w.op("snap");
                     w.start("CONT");
                 }
                 _ => break,
@@ -1179,6 +1282,31 @@ pub fn c09_cases(rng: &mut Rng, tier: &str) -> (Vec<Case>, bool) {
             let b = w.last();
             w.op("snap");
             cases.push(case_from(w, vec![format!("turns-at-least {}-{} {}", a, b, want), "calls-bounded 2".into()], "counted-statements".into(), true, format!("{} || {}", prog.join(" | "), typed.join(" | "))));
+        }
+    }
+    // a prompt printed right before the INPUT on the same line, and replies that are refused: every host call - also the
+    // one that hands over an unsuitable reply - runs ONE statement (the INPUT), never the prompt again
+    let prompted: &[&[&str]] = &[
+        &["10 PRINT \"AGE\";: INPUT A", "20 PRINT A"],
+        &["10 PRINT RND(1);: INPUT A : PRINT RND(1)"],
+        &["10 ? \"N\"; : INPUT N : IF N THEN PRINT \"yes\""],
+        &["10 PRINT \"A\"; : PRINT \"B\"; : INPUT Q(2)", "20 PRINT Q(2)"],
+        &["10 C = C + 1 : PRINT C; : INPUT A : PRINT C"],
+    ];
+    for prog in prompted {
+        for (ww, tt) in [(false, true), (true, true), (false, false)] {
+            let mut w = Walk::new(ww, tt);
+            w.op("seed 5");
+            for l in prog.iter() {
+                w.start(l);
+            }
+            w.start("RUN");
+            let replies: Vec<String> = ["x", "", "abc, 1", "\"q\"", "7", "8", "9"].iter().map(|s| s.to_string()).collect();
+            let mut nr = 0;
+            w.drive(&replies, &mut nr, 60, false);
+            w.state();
+            w.op("snap");
+            cases.push(case_from(w, vec!["calls-bounded 2".into(), "err-then-idle".to_string()], "prompt-then-refused-reply".into(), true, prog.join(" | ")));
         }
     }
     (cases, false)
@@ -1358,6 +1486,12 @@ pub fn c08_cases(rng: &mut Rng, tier: &str) -> (Vec<Case>, bool) {
         ("10 K = 2\n20 INPUT {A}(K)\n30 PRINT {A}(2)", "array-target"),
         ("10 PRINT \"x\";: INPUT {V}: INPUT {W}: PRINT {V}; {W}", "two-inputs"),
         ("10 IF 1 THEN INPUT {V} ELSE PRINT 2\n20 PRINT {V}", "then-else"),
+        // a colon is only a no-op statement: one statement may follow another directly
+        ("10 C = C + 1 INPUT {V}\n20 PRINT C; {V}", "juxtaposed-let"),
+        ("10 GOSUB 100 INPUT {V}\n20 PRINT {V}\n30 END\n100 PRINT \"SUB\": RETURN", "juxtaposed-gosub"),
+        ("10 IF 1 THEN K = K + 1 INPUT {V}\n20 PRINT K; {V}", "juxtaposed-then"),
+        ("10 FOR I = 1 TO 2 INPUT {A}(I)\n20 NEXT I\n30 PRINT {A}(1); {A}(2)", "juxtaposed-for"),
+        ("10 DIM Q(3) INPUT {V} PRINT {V}; Q(3)", "juxtaposed-dim"),
     ];
     let reply_texts: &[&str] = &["5", "0", "-2.5", "hello", "", " ", "1,2", "3:4", "\"q, r\"", " 7 ", "x", "1e3", "12abc", "\"a\" ,", ",", "é", "  \"sp\"  ", "1 2", ".", "inf", "nan",
         // surplus behind an unquoted colon, after text whose byte length exceeds its character count
@@ -1468,6 +1602,10 @@ pub fn c08_cases(rng: &mut Rng, tier: &str) -> (Vec<Case>, bool) {
         "10 PRINT \"a\": INPUT {V}: PRINT \"b\"; {V}",
         "10 INPUT {V}: INPUT {W}: PRINT {V}; {W}",
         "10 PRINT \"NAME\": INPUT {V}: PRINT \"AGE\": INPUT {W}: PRINT {V}; {W}",
+        "10 C = C + 1 INPUT {V}\n20 PRINT C; {V}",
+        "10 GOSUB 100 INPUT {V}\n20 PRINT {V}\n30 END\n100 PRINT \"SUB\": C = C + 1: RETURN",
+        "10 IF 1 THEN K = K + 1 INPUT {V}\n20 PRINT K; {V}",
+        "10 RESTORE READ D(1) INPUT {V}\n15 PRINT D(1); {V}\n20 DATA 4, 5",
         "10 FOR I = 1 TO 3: INPUT {A}(I): NEXT I\n20 PRINT {A}(1); {A}(2); {A}(3)",
         "10 INPUT {A}(INT(RND(1)*10))\n20 FOR I = 0 TO 10: PRINT {A}(I);: NEXT I\n30 PRINT RND(1)",
         "10 I = -1\n20 INPUT {A}(I)\n30 PRINT \"after\"",
